@@ -211,3 +211,5 @@ Definition racy_label (l : label) : bool :=
   end.
 
 Definition is_step_racy (e : event) : bool := match e with EStep _ l => racy_label l | _ => false end.
+
+Definition is_ret (e : event) : bool := match e with ERet _ _ _ _ _ => true | _ => false end.
